@@ -474,7 +474,11 @@ fn main() {
             spec.interleave = rng.range(1, 4) as u8;
             let mut obj = ObjSpec::new(data.clone(), "file:///c07.bin");
             obj.oti = Some(oti.clone());
-            obj.source = match rng.below(6) {
+            obj.md5 = rng.chance(1, 2);
+            obj.source = match rng.below(7) {
+                // a stream handed over at a non-zero position (the application sniffed its first bytes): the transfer
+                // still starts at offset 0
+                6 if l > 1 => vh::session::SourceSpec::ChunkedAt(vec![4096, 100], rng.range(1, l - 1) as usize),
                 0 | 1 | 2 => vh::session::SourceSpec::Buffer,
                 3 => vh::session::SourceSpec::Cursor,
                 4 => vh::session::SourceSpec::Chunked(vec![*rng.pick(&[1usize, 7, 4096])]),
